@@ -11,7 +11,7 @@ import subprocess
 import sys
 
 VERIF = os.path.dirname(os.path.dirname(os.path.abspath(__file__)))
-EXTRA = {"C01": ["C14", "C05", "C06", "C02", "C04"], "C08": ["C09"], "C04": ["C02", "C19"], "C15": ["C01", "C02"], "C03": ["C18"], "C18": ["C03"], "C20": ["C02"], "C02": ["C10"]}
+EXTRA = {"C01": ["C14", "C05", "C06", "C02", "C04", "C20"], "C08": ["C09"], "C04": ["C02", "C19", "C05"], "C15": ["C01", "C02"], "C03": ["C18"], "C18": ["C03"], "C20": ["C02"], "C02": ["C10"], "C13": ["C10"]}
 tier = sys.argv[1] if len(sys.argv) > 1 else "quick"
 src_glob = sys.argv[2] if len(sys.argv) > 2 else "/tmp/wt_C*/_out/m*.diff"
 tag = sys.argv[3] if len(sys.argv) > 3 else ""
